@@ -26,7 +26,9 @@ NOTES = ("Contract-based deductive verification of the real code. ./check <id> e
          "Seeded property-breaking changes used to test the checks: /verif/seeded/. "
          "Every check also verifies the Verus units of the other properties as watch-only auxiliaries and, when any proof leg fails or is "
          "undecided, runs a bounded witness search (native/w_server.rs) for a concrete failing conversation; the witness search never decides "
-         "a property on a tree whose obligations are all discharged. The thorough tier adds the witness scenarios as labelled bounded checks "
+         "a property on a tree whose obligations are all discharged. Attribution follows the call graph ('rests-on closure'): every clause of every "
+         "function under contract that a property's own functions call, transitively, counts for that property, whatever property's name the clause "
+         "carries (evidence key rests_on). The thorough tier adds the witness scenarios as labelled bounded checks "
          "and re-runs the check against the seeded changes of its property (machinery self-test).")
 
 V = "Verus proof on text extracted from /repo each run"
